@@ -307,6 +307,7 @@ def rff(S, what, n1=2, n2=3, d=2, D=2):
     """RFFKernel: K(x1,x2) = (1/D) sum_j [cos(x1.w_j/l) cos(x2.w_j/l) + sin(x1.w_j/l) sin(x2.w_j/l)] for the STORED random weights
        (symbolic buffer), also on the x2-is-x1 root path and diag; RFFPredictionStrategy = dense conditional on that kernel"""
     from symten import sym_cos, sym_sin
+    CTX.pythagoras = True
     k = K.RFFKernel(num_samples=D, num_dims=d)
     for p in k.parameters():
         p.requires_grad_(False)
